@@ -619,8 +619,12 @@ class Connection(object):
 
     def _handle_cmp(self, obj, other, op='__cmp__'):  # request handler
         # cmp() might enter recursive resonance... so use the underlying type and return cmp(obj, other)
+        def getcmp(cls, name):  # `op` is chosen by the peer: only the comparison protocol is served on this route
+            if name not in ('__cmp__', '__eq__', '__ne__', '__lt__', '__le__', '__gt__', '__ge__'):
+                raise AttributeError("cannot access %r" % (name,))
+            return getattr(cls, name)
         try:
-            return self._access_attr(type(obj), op, (), "_rpyc_getattr", "allow_getattr", getattr)(obj, other)
+            return self._access_attr(type(obj), op, (), "_rpyc_getattr", "allow_getattr", getcmp)(obj, other)
         except Exception:
             raise
 
